@@ -205,9 +205,9 @@ Proof.
   - destruct Hin as [->|Hin]; [congruence|]. apply IH; assumption.
   - set (t := shorten (call_text crepr ns c)).
     assert ((exists f, In f (if overt_prefix t
-                             then [mkF "OvertlyBadEvals" 0 "OvertlyBadEval" "OVERTLY_MALICIOUS" t [("shortened", BStr t)]]
+                             then [mkF "OvertlyBadEvals" 0 "OvertlyBadEval" "OVERTLY_MALICIOUS" t [BStr t]]
                              else if mem_str t d then []
-                             else [mkF "OvertlyBadEvals" 1 "OvertlyBadEval" "LIKELY_UNSAFE" t [("shortened", BStr t)]])
+                             else [mkF "OvertlyBadEvals" 1 "OvertlyBadEval" "LIKELY_UNSAFE" t [BStr t]])
                         /\ (f_sev f = "OVERTLY_MALICIOUS"%string \/ f_sev f = "LIKELY_UNSAFE"%string))
             \/ In t d) as Here.
     { destruct (overt_prefix t); [left; eexists; split; [left; reflexivity | left; reflexivity]|].
